@@ -107,7 +107,7 @@ def dynamic_check(body, model, case, acc, bound):
             return False
         return True
 
-    _, decisions, capped = explore(run_pair, bound, 10, on_run, max_runs=300)
+    _, decisions, capped = explore(run_pair, bound, 10, on_run, max_runs=20000)
     acc.transitions += decisions
     acc.capped = acc.capped or capped
 
